@@ -13,7 +13,7 @@ import re
 from sim import lifetimes, observe, worldgen
 from . import common
 
-SPEC_LEVELS = [10, 20, 30, 5, 40]
+SPEC_LEVELS = [10, 20, 30, 5, 40, 25, 35, 30, 10]
 MUTATIONS = {
     'ugrid': ['no_conventions', 'conventions_other', 'topology_dim_1', 'no_mesh_var', 'no_cf_role'],
     'shoc_simple': ['no_ems_version', 'rename_dim'],
@@ -151,7 +151,7 @@ class BindSim:
                     op['how'] = rng.choice(COPY_HOWS)
                     handles += 1
                 if kind == 'derive':
-                    op['how'] = rng.choice(['assign_attrs', 'isel', 'drop_attr'])
+                    op['how'] = rng.choice(['assign_attrs', 'isel', 'drop_attr', 'reorder', 'reorder'])
                     handles += 1
                 if kind == 'mutate':
                     op['how'] = rng.choice(['pop_conventions', 'pop_markers', 'add_attr', 'pop_ems_version'])
@@ -619,6 +619,20 @@ def _bind_lifetime(ctx, dataset_descs, lt):
                     # xarray's isel() hands the *same* attrs dict to the new dataset; a later in-place edit of one
                     # would silently edit the other.  That aliasing is xarray's, not the property's: detach it.
                     new.attrs = dict(new.attrs)
+                elif how == 'reorder':
+                    # the same variables in another order: the same content
+                    import xarray
+                    new = xarray.Dataset(
+                        data_vars={n: ds.variables[n] for n in list(ds.data_vars)[::-1]},
+                        coords={n: ds.variables[n] for n in list(ds.coords)[::-1]},
+                        attrs=dict(ds.attrs))
+                    try:
+                        a, b = emsarray.get_dataset_convention(new), emsarray.get_dataset_convention(ds)
+                    except KeyError:
+                        a = b = None
+                    if a is not b:
+                        fail('content-alone', f'dataset #{h}: the same variables in another order are detected as {a}, originally {b}')
+                    probe('reordered_variables_detected')
                 else:
                     new = ds.assign_attrs()
                     new.attrs.pop('title', None)
